@@ -198,7 +198,8 @@ fn run_one(
         "seams" => seams::run(cat, &seams::Config { focus: focus.to_string() }, stats, rs),
         "enum" => {
             let max_len = arg(args, "--max-len").map(|x| x.parse().unwrap()).unwrap_or(2);
-            enumg::run(cat, &enumg::Config { max_len }, stats, rs)
+            let skip_matrix = args.iter().any(|a| a == "--skip-matrix");
+            enumg::run(cat, &enumg::Config { max_len, skip_matrix }, stats, rs)
         }
         "zip" => {
             let max_len = arg(args, "--max-len").map(|x| x.parse().unwrap()).unwrap_or(16 << 10);
